@@ -236,3 +236,65 @@ Proof.
     apply IH. destruct o as [k v h|k h]; cbn [step fst]; [apply insert_len; exact Hl|exact Hl]. }
   apply G. simpl. apply repeat_length.
 Qed.
+
+(* --- the fill counter never under-counts the occupied slots (so growth is never late) --- *)
+Definition isS (o : option elt) : bool := match o with Some _ => true | None => false end.
+Notation gfold := (fold_left (fun acc o => match o with
+                                            | Some e => insert_raw acc (ekey e) (eval e) (ehash e)
+                                            | None => acc end)).
+
+Lemma insert_raw_occ t k v h : length (tbl t) = 2 ^ cap t ->
+  occupied_count (insert_raw t k v h) + num_filled t = occupied_count t + num_filled (insert_raw t k v h).
+Proof.
+  intros Hl. unfold occupied_count. fold isS. simpl.
+  assert (Hlt : pos (cap t) h < length (tbl t)) by (rewrite Hl; apply pos_lt).
+  pose proof (count_set_nth isS (tbl t) (pos (cap t) h)
+                (Some {| ekey := k; eval := v; ehash := h |}) None Hlt) as Hc.
+  destruct (nth (pos (cap t) h) (tbl t) None); simpl in Hc; lia.
+Qed.
+
+Lemma fold_occ (l : list (option elt)) t : length (tbl t) = 2 ^ cap t ->
+  occupied_count (gfold l t) + num_filled t = occupied_count t + num_filled (gfold l t).
+Proof.
+  revert t; induction l as [|[e|] l IH]; intros t Hl; simpl; auto.
+  pose proof (IH _ (insert_raw_len t (ekey e) (eval e) (ehash e) Hl)) as H1.
+  pose proof (insert_raw_occ t (ekey e) (eval e) (ehash e) Hl) as H2. lia.
+Qed.
+
+Lemma fold_nf_le (l : list (option elt)) t : num_filled (gfold l t) <= num_filled t + count isS l.
+Proof.
+  revert t; induction l as [|[e|] l IH]; intros t; simpl; try lia.
+  - etransitivity; [apply IH|]. simpl. destruct (nth _ _ _); lia.
+  - apply IH.
+Qed.
+
+Lemma grow_occ t : occupied_count (grow t) <= occupied_count t.
+Proof.
+  unfold grow, occupied_count at 1. simpl tbl. fold isS.
+  assert (Hn : length (tbl (lru_new (S (cap t)))) = 2 ^ cap (lru_new (S (cap t)))) by (simpl; apply repeat_length).
+  pose proof (fold_occ (tbl t) _ Hn) as H1.
+  pose proof (fold_nf_le (tbl t) (lru_new (S (cap t)))) as H2.
+  unfold occupied_count in H1 at 2. simpl tbl in H1. fold isS in H1.
+  rewrite count_repeat_false in H1 by reflexivity. simpl num_filled in H1, H2.
+  unfold occupied_count in H1 at 1. fold isS in H1. unfold occupied_count. fold isS. lia.
+Qed.
+
+Definition OccInv (t : lru) : Prop := length (tbl t) = 2 ^ cap t /\ occupied_count t <= num_filled t.
+
+Lemma insert_OccInv t k v h : OccInv t -> OccInv (insert t k v h).
+Proof.
+  intros [Hl Ho]. split; [apply insert_len; exact Hl|].
+  unfold insert. destruct (needs_grow t).
+  - pose proof (insert_raw_occ (grow t) k v h (grow_len t)) as H1.
+    pose proof (grow_occ t) as H2. assert (num_filled (grow t) = num_filled t) by reflexivity. lia.
+  - pose proof (insert_raw_occ t k v h Hl) as H1. lia.
+Qed.
+
+Theorem final_OccInv c ops : OccInv (final (lru_new c) ops).
+Proof.
+  assert (G : forall t, OccInv t -> OccInv (final t ops)).
+  { induction ops as [|o r IH]; intros t Hi; simpl; auto.
+    apply IH. destruct o as [k v h|k h]; cbn [step fst]; [apply insert_OccInv; exact Hi|exact Hi]. }
+  apply G. split; [simpl; apply repeat_length|].
+  unfold occupied_count. simpl. rewrite count_repeat_false by reflexivity. lia.
+Qed.
